@@ -37,6 +37,9 @@ type pager struct {
 	dmsHeld    bool
 	seedCursor int
 	onCommit   func() // called when the call that commits a transaction has returned
+
+	closeRelease  bool // a WAL writer may release WRITE by closing its shm handle (UnlockSHM)
+	exclusiveMode bool // transactions that keep the size may leave page 1 alone (locking_mode=EXCLUSIVE)
 }
 
 func newPager(r *Rand, ps int, do func(string) string) *pager {
@@ -112,6 +115,11 @@ func (p *pager) randomShape(maxGrow int) txShape {
 	}
 	for pg := n + 1; pg <= s.newN; pg++ {
 		s.pages[pg] = true
+	}
+	if p.exclusiveMode && n > 1 && s.newN == n && len(s.pages) > 1 && p.r.Chance(1, 6) {
+		// exclusive locking mode: the change counter on page 1 is only bumped by the first write
+		// transaction under the held lock; later ones may leave page 1 alone
+		delete(s.pages, 1)
 	}
 	delete(s.pages, p.lockPgno())
 	return s
@@ -438,11 +446,21 @@ func (p *pager) walTx(s txShape, rollback bool, repeat bool, splitWrites bool) {
 		p.do(fmt.Sprintf("ww %d %s", off+24, f.tok))
 		off += 24 + int64(p.ps)
 	}
-	p.do(fmt.Sprintf("unlock %d WRITE", o))
-	if p.onCommit != nil && !rollback {
-		p.onCommit()
+	if p.closeRelease && p.r.Chance(1, 8) {
+		// the connection goes away (the shm handle is flushed) while it holds WRITE: everything
+		// it holds on the shm file is released at once, and a complete transaction is captured
+		p.do(fmt.Sprintf("shmclose %d", o))
+		p.dmsHeld = false
+		if p.onCommit != nil && !rollback {
+			p.onCommit()
+		}
+	} else {
+		p.do(fmt.Sprintf("unlock %d WRITE", o))
+		if p.onCommit != nil && !rollback {
+			p.onCommit()
+		}
+		p.do(fmt.Sprintf("unlock %d %s", o, rd))
 	}
-	p.do(fmt.Sprintf("unlock %d %s", o, rd))
 	if rollback {
 		return // frames stay in the file beyond walOff; the next transaction overwrites them
 	}
